@@ -115,8 +115,21 @@ def explore_case(part, item):
     name = name_of(cfg) + f'/hist={len(cfg["history"])}/{delivery}' + \
         (f'/dev<={bound}' if bound is not None else '/exhaustive')
     viols = []
+    fine = delivery == 'fine'
     try:
-        res = DC.explore_cfg(cfg, delivery, oracle_for(cfg), bound)
+        if fine:
+            # completions may land between any two lines of kfac code
+            from vf import explore
+            explore.FINE['files'] = (
+                'kfac/distributed.py', 'kfac/layers/base.py',
+                'kfac/layers/eigen.py', 'kfac/layers/inverse.py',
+                'kfac/base_preconditioner.py')
+            try:
+                res = DC.explore_cfg(cfg, 'free', oracle_for(cfg), bound)
+            finally:
+                explore.FINE['files'] = ()
+        else:
+            res = DC.explore_cfg(cfg, delivery, oracle_for(cfg), bound)
     except Exception as e:  # noqa
         part.violation(f'harness:{type(e).__name__}', f'{name}: {e}',
                        {'cfg': cfg, 'mode': 'explore'})
@@ -209,7 +222,17 @@ def explorations(thorough, seed):
                     col=False), 'eager', None))
     out.append((cfg('mlp3', 4, 'HYBRID_OPT', 'eigen', True, 25.0, 3),
                 'eager', 1))
+    out.append((cfg('lin1', 2, 'COMM_OPT', 'eigen', True, 25.0, 1),
+                'fine', 1))
     if thorough:
+        out.append((cfg('lin1', 2, 'COMM_OPT', 'eigen', True, 25.0, 2),
+                    'fine', 1))
+        out.append((cfg('mlp2', 2, 'COMM_OPT', 'inverse', False, 0.0, 2),
+                    'fine', 1))
+        out.append((cfg('lin1', 4, 'HYBRID_OPT', 'eigen', False, 25.0, 1),
+                    'fine', 1))
+        out.append((cfg('lin1', 2, 'COMM_OPT', 'eigen', True, 25.0, 1),
+                    'fine', 2))
         out.append((cfg('mlp2', 2, 'COMM_OPT', 'eigen', True, 25.0, 1),
                     'free', None))
         for k in (1, 3):
@@ -295,7 +318,7 @@ def main(run: core.Run):
         if it[0] == 'explore':
             c, d, b = it[1]
             return 4000 * c['world'] * len(c['history']) * (
-                4 if d == 'free' else 1)
+                4 if d in ('free', 'fine') else 1)
         c = it[1][0] if it[0] == 'fixed' else it[1]
         return c['world'] ** 2 * len(c['history'])
 
